@@ -748,6 +748,10 @@ func (l *segment) drained() bool {
 func (l *segment) close() error {
 	l.mu.Lock()
 	defer l.mu.Unlock()
+	// Appends accepted under the buffered path must not be lost by a clean close.
+	if err := l.flush(); err != nil {
+		return err
+	}
 	if err := l.file.Close(); err != nil {
 		return err
 	}
